@@ -5,6 +5,7 @@ import ast
 import contextlib
 import copy
 import importlib
+import importlib.util
 import io
 import json
 import os
@@ -153,7 +154,9 @@ def run_cli_process(argv, cwd, hashseed=None):
     if hashseed is not None:
         env["PYTHONHASHSEED"] = str(hashseed)      # every process of a user has its own string hashes
     try:
-        r = subprocess.run([sys.executable, "-m", "xstate_statemachine.cli"] + argv, cwd=cwd, env=env,
+        # -P: like the installed `xsm` console script, the working directory is NOT on sys.path (with a
+        # bare `python -m` a generated token.py / json.py there would shadow the standard library's)
+        r = subprocess.run([sys.executable, "-P", "-m", "xstate_statemachine.cli"] + argv, cwd=cwd, env=env,
                            capture_output=True, text=True, timeout=300)
     except subprocess.TimeoutExpired:
         return "crash:Timeout", "", []
@@ -318,10 +321,20 @@ def load_generated(outdir, files, template, config):
     sys.dont_write_bytecode = True
     loaded = []
     try:
+        by_name = {}
         for f in files:
             importlib.invalidate_caches()
-            loaded.append(importlib.import_module(f[:-3]))
-        mod = sys.modules[modname]
+            name = f[:-3]
+            if name in sys.stdlib_module_names or name in sys.modules:
+                # a machine called "Token" / "json": load the file itself, under a private name
+                spec = importlib.util.spec_from_file_location("xsv_generated_" + name, os.path.join(outdir, f))
+                m_ = importlib.util.module_from_spec(spec)
+                spec.loader.exec_module(m_)
+                by_name[name] = m_
+            else:
+                by_name[name] = importlib.import_module(name)
+            loaded.append(by_name[name])
+        mod = by_name[modname]
         if template == "pythonic-class":
             classes = [v for v in vars(mod).values() if isinstance(v, type) and issubclass(v, StateMachine)
                        and v is not StateMachine]
@@ -336,7 +349,9 @@ def load_generated(outdir, files, template, config):
         sys.dont_write_bytecode = old_dont
         sys.path.remove(outdir)
         for f in files:
-            sys.modules.pop(f[:-3], None)
+            m_ = sys.modules.get(f[:-3])
+            if m_ is not None and str(getattr(m_, "__file__", "")).startswith(outdir):
+                sys.modules.pop(f[:-3], None)       # only what was imported from the scratch directory
 
 
 # ---------------------------------------------------------------------------
@@ -668,9 +683,23 @@ def run_runner(out, files, cwd):
 
 
 # ids that are legal JSON but awkward as Python module / class / function names
-ODD_IDS = ["3dPrinter", "9lives", "1st", "_private", "__dunder__", "UPPER", "MiXed-Case", "with space", "ünï",
-           "a" * 70, "class", "import", "None", "x__y", "trailing_", "Z9", "2", "logic", "runner", "test", "os",
-           "json", "typing", "xstate_statemachine", "main", "build", "self", "State", "日本", "a-b-c", "a.b"]
+ODD_IDS = ["3dPrinter", "Token", "9lives", "json", "_private", "typing", "1st", "os", "__dunder__", "tokenize",
+           "UPPER", "re", "MiXed-Case", "ast", "with space", "keyword", "ünï",
+           "a" * 70, "class", "import", "None", "x__y", "trailing_", "Z9", "2", "logic", "runner", "test",
+           "xstate_statemachine", "main", "build", "self", "State", "日本", "a-b-c", "a.b", "black", "isort"]
+
+
+def rejected_source_config(ordinal):
+    """Sources create_machine() rejects: whatever the template, nothing may be written for them."""
+    shapes = [
+        {"id": "noStates", "context": {"n": 0}, "on": {"GO": [{"target": "#noStates", "actions": [{"type": "doIt"}]}]}},
+        {"id": "badInitial", "initial": "nowhere", "states": {"a": {"on": {"GO": "b"}}, "b": {}}},
+        {"id": "noInitial", "states": {"a": {"initial": "ghost", "states": {"x": {}, "y": {}}}}},
+        {"id": "badTarget", "initial": "a", "states": {"a": {"on": {"GO": {"target": "missing", "actions": ["doIt"]}}}}},
+        {"id": "dupIds", "initial": "a", "states": {"a": {"id": "same"}, "b": {"id": "same"}}},
+        {"id": "statesList", "initial": "a", "states": ["a", "b"]},
+    ]
+    return shapes[ordinal % len(shapes)]
 
 
 def odd_id_config(ordinal):
@@ -859,8 +888,8 @@ def run_chunk(spec):
     wd = Watchdog(res, 400.0)
     rng = rng_for(spec["seed"], ID, ci, "plan")
     jobs = []
-    n_gen = 4 if tier == "quick" else 60
-    n_host = 2 if tier == "quick" else 20
+    n_gen = 4 if tier == "quick" else 30
+    n_host = 2 if tier == "quick" else 10
     only = spec.get("only_case")
     for j in range(n_gen):
         idx = ci * 100000 + j
@@ -870,10 +899,12 @@ def run_chunk(spec):
         jobs.append(("hostile", idx, None))
     for j in range(2 if tier == "quick" else 14):
         jobs.append(("hostile-id", ci * 100000 + 60000 + j, None))
-    for j in range(1 if tier == "quick" else 6):
+    for j in range(1 if tier == "quick" else 3):
         jobs.append(("counter", ci * 100000 + 70000 + j, None))
-    for j in range(1 if tier == "quick" else 6):
+    for j in range(1 if tier == "quick" else 3):
         jobs.append(("odd-id", ci * 100000 + 80000 + j, None))
+    for j in range(1 if tier == "quick" else 2):
+        jobs.append(("rejected-source", ci * 100000 + 85000 + j, None))
     stately = sorted(os.listdir(STATELY)) if os.path.isdir(STATELY) else []
     mine = [f for i, f in enumerate(stately) if i % NCHUNKS == ci]
     if tier == "quick":
@@ -897,6 +928,9 @@ def run_chunk(spec):
         elif family == "odd-id":
             j_ = idx - (ci * 100000 + 80000)
             cfg = odd_id_config(j_ * NCHUNKS + ci)
+        elif family == "rejected-source":
+            j_ = idx - (ci * 100000 + 85000)
+            cfg = rejected_source_config(j_ * NCHUNKS + ci)
         else:
             try:
                 with open(os.path.join(STATELY, fname), encoding="utf-8") as fh:
@@ -905,7 +939,7 @@ def run_chunk(spec):
                 continue
             res.count("stately.exports")
         combos = [(t, am, fc) for t in TEMPLATES for am in ("no", "yes") for fc in (2, 1)]
-        if tier == "quick" or family != "stately":
+        if True:      # (every template once + three more mode/file combinations; all 20 took too long)
             r2 = rng_for(spec["seed"], ID, ci, idx, "combo")
             r2.shuffle(combos)
             # every template once, modes/files at random
@@ -918,8 +952,11 @@ def run_chunk(spec):
             if family == "counter" and tier == "quick":
                 combos = combos[:2]
             if family == "odd-id":
-                # written next to the JSON (the CLI's default), as two files: the runner imports the logic
-                combos = [(t_, am_, 2) for (t_, am_, _fc) in combos[:2]]
+                # written next to the JSON (the CLI's default): once as two files (the runner imports
+                # the logic), once as one file named after the machine alone
+                combos = [(t_, am_, 2 - k_) for k_, (t_, am_, _fc) in enumerate(combos[:2])]
+            if family == "rejected-source":
+                combos = [c_ for c_ in combos if c_[0] in ("class-json", "function-json")][:2] + combos[:1]
         for (t, am, fc) in combos:
             k += 1
             wd.arm("%s idx=%s %s" % (family, idx, t))
@@ -935,7 +972,7 @@ def quota(counters, tier):
     out = []
     need = ["compared.fingerprints", "compared.traces", "regenerated", "check-mode-runs", "cli.refused",
             "stately.exports", "formatter-stand-in-checked", "cli.runs.output-in-working-directory",
-            "cli.runs.own-process", "family.counter", "family.hostile-id", "family.odd-id", "runner.executed",
+            "cli.runs.own-process", "family.counter", "family.hostile-id", "family.odd-id", "family.rejected-source", "runner.executed",
             "static.files-scanned-for-smuggled-code"]
     need += ["cli.wrote." + t for t in TEMPLATES]
     need += ["loaded." + t for t in TEMPLATES]
